@@ -319,9 +319,7 @@ theorem AA.run_norm (a : AA) (ds : List Nat) :
 
 theorem WObj.solve_norm (b : Bool) (w : WObj) (data n : Nat) :
     (w.norm.solve b data 0 n).2 = (w.solve b data 0 n).2 := by
-  cases n with
-  | zero => rfl
-  | succ n => simp [WObj.solve, WObj.linearSolve, WObj.norm]
+  simp [WObj.solve, WObj.linearSolve, WObj.norm]
 
 /-! ### the process -/
 
@@ -642,5 +640,114 @@ theorem selfContained_frame (w w' : World) (op : Op) (hop : op.selfContained = t
   | jacUpdate => simp [Op.selfContained] at hop
   | mgCall => simp [Op.selfContained] at hop
   | mgUpdate => simp [Op.selfContained] at hop
+
+/-! ### regularisers overwrite every parameter of the solver they are given -/
+
+/-- forget the caches AND the parameters `dim`, `mass_coeff`, `diffusion_coeff` of every solver object -/
+def MG.normP (m : MG) : MG := { m with p := ⟨0, .unset, .unset⟩, smoother := m.smoother.normD }
+
+def World.normP (w : World) : World :=
+  { h1Default := w.h1Default.normD, sbDefault := w.sbDefault.normD, jacs := w.jacs.map Jac.normD,
+    mgs := w.mgs.map MG.normP, aas := w.aas.map AA.norm, ws := w.ws.map WObj.norm }
+
+theorem Jac.normD_norm (j : Jac) : j.norm.normD = j.normD := rfl
+theorem MG.normP_norm (m : MG) : m.norm.normP = m.normP := rfl
+
+theorem World.normP_norm (w : World) : w.norm.normP = w.normP := by
+  simp only [World.normP, World.norm, List.map_map]
+  congr 1
+
+theorem World.normP_of_norm {w w' : World} (e : w'.norm = w.norm) : w'.normP = w.normP := by
+  rw [← World.normP_norm w', ← World.normP_norm w, e]
+
+theorem Jac.normD_update_any (j : Jac) (d : Option Nat) (m f : Option Coef) : (j.update d m f).normD = j.normD := rfl
+theorem MG.normP_update_any (m : MG) (d : Option Nat) (ma f : Option Coef) : (m.update d ma f).normP = m.normP := rfl
+
+/-- parameter-setting operations are invisible after forgetting parameters -/
+theorem setting_normP (w : World) (op : Op) : (run true false w op.settingPart).normP = w.normP := by
+  rcases w with ⟨a, b, js, ms, as, os⟩
+  have hj : ∀ i d m f, (run true false ⟨a, b, js, ms, as, os⟩ [Op.jacUpdate i d m f]).normP = (World.mk a b js ms as os).normP := by
+    intro i d m f
+    simp only [run, step]
+    cases hh : js[i]? with
+    | none => rfl
+    | some j =>
+      simp only [World.normP]
+      rw [setAt_map_same Jac.normD js i _ j hh (Jac.normD_update_any j d m f)]
+  have hm : ∀ i d m f, (run true false ⟨a, b, js, ms, as, os⟩ [Op.mgUpdate i d m f]).normP = (World.mk a b js ms as os).normP := by
+    intro i d m f
+    simp only [run, step]
+    cases hh : ms[i]? with
+    | none => rfl
+    | some x =>
+      simp only [World.normP]
+      rw [setAt_map_same MG.normP ms i _ x hh (MG.normP_update_any x d m f)]
+  cases op with
+  | jacCall => rfl
+  | mgCall => rfl
+  | anderson => rfl
+  | distance => rfl
+  | jacUpdate i d m f => exact hj i d m f
+  | mgUpdate i d m f => exact hm i d m f
+  | h1 s mu om dim ch dd =>
+    cases s with
+    | default => rfl
+    | jac i => exact hj i _ _ _
+    | mg i => exact hm i _ _ _
+  | sb s ell om dim it dd =>
+    cases s with
+    | default => rfl
+    | jac i => exact hj i _ _ _
+    | mg i => exact hm i _ _ _
+
+/-- no operation changes anything but caches and parameters -/
+theorem step_normP (w : World) (op : Op) : (step true false w op).1.normP = w.normP := by
+  rw [World.normP_of_norm (step_settings w op), setting_normP]
+
+theorem run_normP (w : World) (ops : List Op) : (run true false w ops).normP = w.normP := by
+  induction ops generalizing w with
+  | nil => rfl
+  | cons op ops ih => simp only [run]; rw [ih, step_normP]
+
+theorem World.normP_fields {w w' : World} (e : w'.normP = w.normP) :
+    w'.h1Default.normD = w.h1Default.normD ∧ w'.sbDefault.normD = w.sbDefault.normD ∧
+    w'.jacs.map Jac.normD = w.jacs.map Jac.normD ∧ w'.mgs.map MG.normP = w.mgs.map MG.normP := by
+  have h1 := congrArg World.h1Default e
+  have h2 := congrArg World.sbDefault e
+  have h3 := congrArg World.jacs e
+  have h4 := congrArg World.mgs e
+  exact ⟨h1, h2, h3, h4⟩
+
+theorem MG.normP_update {m m' : MG} (e : m'.normP = m.normP) (d : Nat) (ma f : Coef) :
+    (m'.update (some d) (some ma) (some f)).norm = (m.update (some d) (some ma) (some f)).norm := by
+  have h2 : m'.maxiter = m.maxiter := by have := congrArg MG.maxiter e; exact this
+  have h3 : m'.depth = m.depth := by have := congrArg MG.depth e; exact this
+  have h4 : m'.smIter = m.smIter := by have := congrArg MG.smIter e; exact this
+  have h5 : m'.hetero = m.hetero := by have := congrArg MG.hetero e; exact this
+  have h6 : m'.smoother.normD = m.smoother.normD := by have := congrArg MG.smoother e; exact this
+  exact MG.norm_of_fields (m := m.update (some d) (some ma) (some f)) (m' := m'.update (some d) (some ma) (some f))
+    rfl h2 h3 h4 h5 (Jac.normD_update h6 d ma f)
+
+/-- a regulariser's result does not depend on the parameters (or caches) of the solver object it is given -/
+theorem regularise_normP {w w' : World} (e : w'.normP = w.normP) (which : Bool) (s : SolverRef) (mass diff : Coef) (dim n : Nat) :
+    (regularise true false w' which s mass diff dim n).2 = (regularise true false w which s mass diff dim n).2 := by
+  obtain ⟨e1, e2, e3, e4⟩ := World.normP_fields e
+  cases s with
+  | default =>
+    cases which
+    · simp only [regularise, Bool.false_eq_true, if_false]
+      rw [(jacCalls_norm n _).2 _ (Jac.normD_update e2 dim mass diff)]
+    · simp only [regularise, if_true]
+      rw [(jacCalls_norm n _).2 _ (Jac.normD_update e1 dim mass diff)]
+  | jac i =>
+    rcases lookup_of_map_eq Jac.normD e3 i with ⟨h', h⟩ | ⟨j', j, h', h, hj⟩
+    · simp only [regularise, h', h]
+    · simp only [regularise, h', h]
+      rw [(jacCalls_norm n _).2 _ (Jac.normD_update hj dim mass diff)]
+  | mg i =>
+    rcases lookup_of_map_eq MG.normP e4 i with ⟨h', h⟩ | ⟨m', m, h', h, hm⟩
+    · simp only [regularise, h', h]
+    · simp only [regularise, h', h]
+      rw [(mgCalls_norm n _).2 _ (MG.normP_update hm dim mass diff)]
 
 end Darsia.Stateful
